@@ -17,6 +17,7 @@ import common
 import gen_common as G
 import gen_checks as GC
 import gen_main
+import gen_main2
 import gen_market
 import gen_asset
 
@@ -128,7 +129,7 @@ def run(ctx):
                        'keeps that constant as a summand: the identity is stated up to that constant 0']
     # booking-group models with theorems for ALL zones (coq/GenMarket, coq/GenAsset), each with its own
     # state correspondence and oracle
-    out.proof = common.proof_status_many([(FAMILY, PROPFILE)] + gen_market.PROOFS + gen_asset.PROOFS + gen_main.PROOFS)
+    out.proof = common.proof_status_many([(FAMILY, PROPFILE)] + gen_market.PROOFS + gen_asset.PROOFS + gen_main2.PROOFS)
     gen_market.extra(ctx, out)
     gen_asset.extra(ctx, out)
     # (the whole-pipeline correspondence of coq/GenMain runs in the C01 and C05 checks; here only its theorems are re-checked)
@@ -141,6 +142,8 @@ def replay(path):
     kind = (obj.get('replay') or {}).get('kind')
     if kind == 'main':
         return gen_main.replay(obj)
+    if kind == 'main2':
+        return gen_main2.replay(obj)
     if kind == 'market':
         return gen_market.replay(obj)
     if kind == 'asset':
